@@ -140,7 +140,7 @@ func (x *Ctx) queryRows(c *rosmar.Collection, stmt string, absKey func(string) s
 }
 
 // observeAux queries the target collection through SQL and through the views.
-func (sr *seqRunner) observeAux(x *Ctx, coll string, suffix string, fresh bool) []AuxObs {
+func (sr *seqRunner) observeAux(x *Ctx, coll string, suffix string, fresh, late bool) []AuxObs {
 	c := sr.env.colls[coll]
 	absKey := absKeyFn(suffix)
 	var out []AuxObs
@@ -185,6 +185,9 @@ func (sr *seqRunner) observeAux(x *Ctx, coll string, suffix string, fresh bool) 
 	add("viewlimit", x.viewRows(c, "vd", "v", map[string]any{"startkey": lo, "endkey": hi, "limit": 1}, absKey, suffix))
 	add("viewkey", x.viewRows(c, "vd", "v", map[string]any{"key": []any{suffix, "J1", nil}}, absKey, suffix))
 	add("viewcount", x.viewRows(c, "vd", "cnt", map[string]any{"startkey": lo, "endkey": hi, "reduce": true}, absKey, suffix))
+	if late {
+		add("viewlate", x.viewRows(c, "ld", "v", map[string]any{"startkey": lo, "endkey": hi}, absKey, suffix))
+	}
 	if fresh {
 		name := "fresh" + strings.TrimPrefix(suffix, ".")
 		if err := c.PutDDoc(context.Background(), name, viewDDoc()); err == nil {
